@@ -1218,15 +1218,27 @@ class C07(ImportSpec):
     assumptions = ["mock network / mock crates.io", "peer files are served as generated text and parsed by the real toml + serde code"]
 
     def run(self, rng, tier, work, model_ok=True, ncases=None, replay=None):
-        res = super().run(rng, tier, work, model_ok, ncases, replay)
+        rkind = None
         if replay:
-            return res
+            try:
+                rcase = json.load(open(replay)).get("case") or {}
+            except Exception:
+                rcase = {}
+            rkind = rcase.get("kind")
+            rcase.setdefault("id", "replay")
+        if rkind in ("validate", "resolve"):
+            # a replay of one of the later stages: only that stage is evaluated
+            res = {"cases": [rcase["id"]], "mismatches": [], "oracle_failures": [], "samples": [], "findings_seen": {}, "stats": {}}
+        else:
+            res = super().run(rng, tier, work, model_ok, ncases, replay)
+            if replay:
+                return res
         # locked mode: entries imports.lock still holds for a crate an import now excludes are never accepted, whichever
         # position the excluding import has among the imports
         r2 = __import__("random").Random(rng.random())
         n = 40 if tier == "quick" else 400
-        cases = [gen.gen_stale_exclude_case(r2, f"x{i}") for i in range(n)]
-        obs = vetlib.run_harness([gen.strip_struct(c) for c in cases], os.path.join(work, "impl-locked"))
+        cases = [rcase] if rkind == "validate" else ([] if rkind == "resolve" else [gen.gen_stale_exclude_case(r2, f"x{i}") for i in range(n)])
+        obs = vetlib.run_harness([gen.strip_struct(c) for c in cases], os.path.join(work, "impl-locked")) if cases else {}
         dist = Counter()
         for c in cases:
             o = obs.get(c["id"], {})
@@ -1243,11 +1255,12 @@ class C07(ImportSpec):
         res["stats"]["locked_exclude"] = {f"{a}/{b}": n_ for (a, b), n_ in dist.items()}
         # "unmapped peer criteria contribute nothing" at the level of the verdict: a peer's violation naming only such criteria
         # conflicts with nothing (small planted cases whose verdict follows from the property text)
-        xs = gen.gen_expect_cases(None, "unmapped-violation") + gen.gen_expect_cases(None, "builtin-mapped-to-nothing")
-        xobs = vetlib.run_harness([gen.strip_struct(c) for c in xs], os.path.join(work, "impl-expect"))
+        xs = [rcase] if rkind == "resolve" else ([] if rkind == "validate" else
+                                                  gen.gen_expect_cases(None, "unmapped-violation") + gen.gen_expect_cases(None, "builtin-mapped-to-nothing"))
+        xobs = vetlib.run_harness([gen.strip_struct(c) for c in xs], os.path.join(work, "impl-expect")) if xs else {}
         for c in xs:
             o = xobs.get(c["id"]) or {}
-            ex = c["expect"]
+            ex = c.get("expect") or {"why": "(no expectation recorded)"}
             what = None
             if o.get("status") != "ok":
                 what = f"no verdict ({o.get('status')}: {str(o.get('panic') or o.get('error'))[:120]}) although {ex['why']}"
